@@ -29,7 +29,7 @@ REPO = '/repo_dir'
 ASSUMPTIONS = [
     'repozo runs on the in-memory file layer; gzip.open is routed to gzip.GzipFile over a file of that layer (gzip and md5 '
     'themselves are trusted); READCHUNK is set to 7',
-    'backup file names come from the test_now hook (one distinct second per backup): collisions within a second are outside',
+    'program: backups run through repozo.main with a clock that advances one second per reading, 4 seconds between backups; the other harnesses name files through the test_now hook (one distinct second per backup); collisions within a second are outside',
     'programs of <= 4 steps; source transactions are small (one or two records) or "large" (a 300-byte record)',
     'backup_fault: I/O errors are injected at any file operation of a backup run up to and including the rename that publishes '
     'the copy; an interruption between that rename and the .dat entry is not covered by the property (observed: a later -Q '
@@ -491,7 +491,7 @@ HARNESSES = [
             symbolic='op-codes of up to 4 steps (4 kinds), 4 option booleans, in-progress flag, recovery date selector',
             bounds='nsteps per shard (quick 2, thorough up to 4); repository = initial full backup + program + final incremental',
             oracle='snapshot of the committed prefix of the source at each backup',
-            code=['repozo.do_backup/do_full_backup/do_incremental_backup/do_recover/do_verify', 'find_files', 'scandat', 'concat',
+            code=['repozo.main (backups)', 'repozo.do_backup/do_full_backup/do_incremental_backup/delete_old_backups/do_recover/do_verify', 'gen_filename/gen_filedate', 'find_files', 'scandat', 'concat',
                   'copyfile', 'dofile', 'checksum*', 'delete_old_backups', 'FileStorage (read_only) getSize'],
             quick=dict(timeout=330, shards=shards(nsteps=[2], inflight=[False, True]) + shards(nsteps=[3], inflight=[True])),
             thorough=dict(timeout=1500, shards=shards(nsteps=[2, 3, 4], inflight=[False, True]))),
